@@ -2,7 +2,7 @@ use chan::e2::{self, Prop};
 use chan::e7;
 use vcore::Level;
 
-const RULE: &str = "same history generator weighted towards failures: outcome sequences over {ok, permanent error, retry(remainder), panic in closure, panic in future}, retry chains up to 14, sender drop at any point, panicking and re-entering callbacks; every history ends with a drain phase under one of five outcome policies (all ok / all error / retry forever / panic in future / panic in closure); small-scope exhaustive mode; E7 workloads with failing/panicking processors and a stalled worker; blocking_flush/blocking_send from a plain thread, a tokio multi-thread worker and a current-thread runtime against live, stalled, never-started and dropped receivers. Oracle: the receiver reaches quiescence within 64*(items+ops+4) rounds, <=11 attempts per batch, a wait between attempts, retry waits non-decreasing, positive and <=10 s, idle waits <=500 ms, every callback fires exactly once, after sender drop everything queued is delivered and exec terminates, blocking calls return without panic/deadlock. Non-trivial = a panic, a retry chain >=3 or sender drop with queued items (blocking cases: any context other than plain-thread/live).";
+const RULE: &str = "same history generator weighted towards failures: outcome sequences over {ok, permanent error, retry(remainder), panic in closure, panic in future}, retry chains up to 14, sender drop at any point, panicking and re-entering callbacks; every history ends with a drain phase under one of five outcome policies (all ok / all error / retry forever / panic in future / panic in closure); small-scope exhaustive mode; E7 workloads with failing/panicking processors and a stalled worker; blocking_flush/blocking_send from a plain thread, a tokio multi-thread worker and a current-thread runtime against live, stalled, never-started and dropped receivers. Oracle: the receiver reaches quiescence within 64*(items+ops+4) rounds, a bounded number of attempts per batch (<=64, the same budget for every batch that is given up), a wait between attempts, retry waits non-decreasing, positive and <=10 min, idle waits <=1 min, every callback fires exactly once, after sender drop everything queued is delivered and exec terminates, blocking calls return without panic/deadlock. Non-trivial = a panic, a retry chain >=3 or sender drop with queued items (blocking cases: any context other than plain-thread/live).";
 
 fn main() {
     vcore::run(
@@ -12,7 +12,7 @@ fn main() {
         &[
             "E2 drives Receiver::exec, tokio::send/flush futures and all sender calls from one thread; because all state shared by the halves is behind one mutex and the receiver runs at most one critical section between two suspension points, every lock-granularity interleaving of the two-thread system corresponds to a placement of sender operations between receiver steps",
             "the hand-off instant is observed through when_empty callbacks (documented to fire at a point where the current batch is empty) and through the processor invocation",
-            "documented defaults of emit_batcher::bounded are taken as given: at most 10 retries per batch, back-off capped at 10 s, idle wait capped at 500 ms",
+            "'bounded' is judged against generous absolute bounds (<= 64 attempts per batch, retry waits <= 10 min, idle waits <= 1 min), not against the current constants of emit_batcher::bounded; the retry budget is learned from the run and must be identical for every batch that is given up and at least one retry",
             "E7 samples OS schedules (it does not own them); its oracles are ticket-ordered history invariants that hold for every interleaving; the 30 s watchdogs are the only use of wall-clock time",
             "condvar/oneshot wake-up paths (sync.rs, tokio.rs) are only exercised by E7, i.e. sampled",
         ],
